@@ -130,8 +130,10 @@ def build(P):
             c.params = dict(base.params, matching_mode=VEnum(MM, mi))
             c.requires = list(base.requires) + [("task_family", cond)]
             P.verify(f"{OR}:get_object_results", name=f"get_object_results[3-D, {mode}, {fam}]", contract=c, extra_contracts=extra)
+    # the cells the dominance invariants read: _get_score_table re-verified here (a change to the compatibility mask alone breaks C02, not C01's counting)
+    C01.score_table_tasks(P)
     P.trust("np.nanargmin / np.nanargmax return a position holding an optimal non-NaN entry (assumed; ties unspecified)")
-    P.assume("the score table encodes (valid, compatible, score) per pair as C01's _get_score_table contract states")
+    P.assume("the score table encodes (valid, compatible, score) per pair as _get_score_table's contract states (verified in this check too)")
     P.assume("objects left in the working lists at return are exactly the inputs that occur in no pair (C01's counting and distinctness invariants)")
     P.uncover("'exactly the documented two-stage greedy assignment when no two scores tie' is a consequence of the dominance invariants "
               "(each step takes the optimal remaining pair, unique without ties); not restated as a separate obligation. is_matchable's policy table: see C01/C02 helper contracts.")
